@@ -1057,6 +1057,18 @@ class IndependentSource(Cpt):
         """
         return self._netsubs(zero=True)
 
+    def _expand(self):
+        """Make copy of net.  The noise identifier of a noise source is
+        made explicit so that every expansion of the netlist refers to
+        the same noise source (otherwise a new identifier is allocated
+        each time the netlist is expanded and results obtained before
+        and after are considered uncorrelated)."""
+
+        if (self.is_noisy and len(self.args) == 2 and self.args[1] is None
+                and len(self.cpt.args) == 2):
+            return self._netmake(args=self.cpt.args)
+        return str(self)
+
 
 class DependentSource(Dummy):
 
